@@ -15,7 +15,11 @@
     A held proxy ([p = c.a.b], used later) is a handle on the path it was
     fetched at: an operation through it is the same operation at that path.
     Handles whose section (or an ancestor) was deleted or overwritten by a dict
-    after they were fetched are out of scope (F-C06b): judging stops there. *)
+    after they were fetched, or BELOW whose section a dict was written (that
+    dict object is then shared between the proxy's snapshot and the
+    modifications level), are out of scope (F-C06b and the aliasing listed under
+    not-modelled): judging of operations through that handle stops there
+    ([detaches]). *)
 From InvokeVerif Require Export Common.Tree Common.StrUtil Model.ConfigTypes Spec.C03Spec.
 
 (** * Reference dictionary operations *)
@@ -320,13 +324,30 @@ Definition judge_path_op (r : rstate) (o : op) (out : outcome) (view envl : tree
   if out_match want out && tree_equiv (Node st') view && tree_equiv envl (r_env r)
   then (None, r') else (Some false, r').
 
+(** [merge=False] loads: the level is replaced but nothing is merged, so the
+    view must stay as it is; the new level becomes visible at the next call that
+    merges -- [merge()] or a reload.  What happens in between (reads, and writes,
+    which happen to merge as a side effect) is not specified by the API: a
+    history that does anything else before merging leaves the scope there. *)
+Definition merges (o : op) : bool :=
+  is_reload o || match o with Merge => true | _ => false end.
+
+Definition pending (loads : list op) : bool := is_deferred (last loads Merge).
+
 Definition judge_step (fs : fsys) (i : init_args) (r : rstate) (x : obs_step)
   : option bool * rstate :=
   let '(h, out, view, envl) := x in
   match h with
   | Plain o =>
-      if is_path_op o then judge_path_op r o out view envl
-      else if is_reload o then
+      if is_deferred o then
+        let loads' := r_loads r ++ [o] in
+        if negb (scope_ok fs i loads' envl) then (Some true, r)
+        else if out_match ONone out && tree_equiv (Node (r_st r)) view && tree_equiv envl (r_env r)
+        then (None, mkR (r_st r) (r_journal r) loads' (r_env r) (r_handles r) (r_dead r))
+        else (Some false, r)
+      else if pending (r_loads r) && negb (merges o) then (Some true, r)
+      else if is_path_op o then judge_path_op r o out view envl
+      else if merges o then
         let loads' := r_loads r ++ [o] in
         if env_error out then (Some true, r)                (* documented refusals: C16 *)
         else if negb (scope_ok fs i loads' envl) then (Some true, r)
@@ -356,7 +377,8 @@ Definition judge_step (fs : fsys) (i : init_args) (r : rstate) (x : obs_step)
           else (Some false, r)
       end
   | Via h o =>
-      if existsb (Nat.eqb h) (r_dead r) then (Some true, r)
+      if pending (r_loads r) then (Some true, r)            (* see [pending] *)
+      else if existsb (Nat.eqb h) (r_dead r) then (Some true, r)
       else match hget h (r_handles r) with
            | None => if out_match ONone out && tree_equiv (Node (r_st r)) view then (None, r)
                      else (Some false, r)
